@@ -15,12 +15,14 @@
   pinned algorithm in both directions (known finding C15-F0): see
   `checkModel_missed_counterexample`, `checkModel_false_alarm_counterexample`,
   `checkModel_false_alarm_root_counterexample`, `checkModel_edc_missed_counterexample`.
-  What is proved about M for all models: `checkModel_accepts_edc_direct` (an accepted model has no
+  What is proved about M: `checkModel_refines_partial` (the equivalence holds on every flat choice of
+  plain element particles), and for all models: `checkModel_accepts_edc_direct` (an accepted model has no
   two visited element particles with the same name and different types) and
   `checkModel_v11_element_wildcard_never_error` (XSD 1.1: no UPA error between an element and a wildcard).
 -/
 import XsVerif.Lemmas.Upa
 import XsVerif.Lemmas.CheckModel
+import XsVerif.Lemmas.CheckModelFlat
 
 namespace XsVerif.Props.C15
 open XsVerif XsVerif.CM XsVerif.Wildcard
@@ -160,21 +162,99 @@ theorem spec_v11_element_wildcard_never_compete (p : Particle) (x y : Nat)
     (h : isAnyId p x ≠ isAnyId p y) : competing true p x y = false := by
   simp [competing, h]
 
-/-- Spec sanity: a model in which no two different particles match a common name of Σ is
-    deterministic (whatever its shape and occurrence ranges). -/
+/-- Spec sanity: a model in which no two different particles (particles switched off by
+    `maxOccurs = 0` do not count) match a common name of Σ is deterministic, whatever its shape and
+    occurrence ranges. -/
 theorem upa_of_disjoint (sigma : List QN) (v11 : Bool) (p : Particle)
-    (h : ∀ l1 ∈ p.leaves, ∀ l2 ∈ p.leaves, l1.id ≠ l2.id → ∀ a ∈ sigma,
+    (h : ∀ l1 ∈ p.liveLeaves, ∀ l2 ∈ p.liveLeaves, l1.id ≠ l2.id → ∀ a ∈ sigma,
       ¬ (l1.matches a = true ∧ l2.matches a = true)) : UPA sigma v11 p := by
   intro u v1 v2 a x y _ _ _ ha hcomp hl1 hl2
-  obtain ⟨l1, hm1, hx⟩ := Rx.lang_syms mm p.toRx _ hl1 (a, x) (by simp)
-  obtain ⟨l2, hm2, hy⟩ := Rx.lang_syms mm p.toRx _ hl2 (a, y) (by simp)
-  rw [Particle.leaves_toRx] at hm1 hm2
+  obtain ⟨l1, hm1, hx⟩ := Rx.lang_syms_live mm p.toRx _ hl1 (a, x) (by simp)
+  obtain ⟨l2, hm2, hy⟩ := Rx.lang_syms_live mm p.toRx _ hl2 (a, y) (by simp)
+  rw [Particle.liveLeaves_toRx] at hm1 hm2
   simp only [mm, Bool.and_eq_true, beq_iff_eq] at hx hy
   have hne : l1.id ≠ l2.id := by
     rw [hx.1, hy.1]
     simp only [competing, Bool.and_eq_true, bne_iff_ne] at hcomp
     exact hcomp.1
   exact h l1 hm1 l2 hm2 hne a ha ⟨hx.2, hy.2⟩
+
+/-! ### M refines S on the flat fragment
+
+  Full statement (false for the pinned algorithm, see the counter-examples below):
+      `∀ M p, M.accepts p = true ↔ UPA Σ v11 p ∧ EDC T p`.
+  Proved: the statement for every `choice(e1 … en){1,1}` of plain element particles with arbitrary
+  occurrence ranges (XSD 1.0, no substitution groups), any number of members. -/
+
+/-- guard of the partial refinement theorem: the model is `flatChoice r items`, the context `M` returns
+    the data of the items, the names are in Σ, the occurrence ranges are well formed and the type table
+    lists the declaration of each item -/
+structure Frag15 (M : Ctx) (sigma : List QN) (T : TypeTable) (r : Nat) (items : List FItem) : Prop where
+  ctx : FlatCtx M r items
+  names : ∀ it ∈ items, it.name ∈ sigma
+  occ : ∀ it ∈ items, Rx.loLeHi it.lo it.hi = true
+  types : ∀ it ∈ items, T.decls it.id = [(it.name, (M.info it.id).ty)]
+
+theorem declsOf_flat {M : Ctx} {sigma : List QN} {T : TypeTable} {r : Nat} {items : List FItem}
+    (h : Frag15 M sigma T r items) (d : QN × Nat) :
+    d ∈ declsOf T (flatChoice r items) ↔ ∃ it ∈ live items, d = (it.name, (M.info it.id).ty) := by
+  simp only [declsOf, liveLeaves_flatChoice, List.mem_flatMap, List.mem_map]
+  constructor
+  · rintro ⟨l, ⟨it, hit, rfl⟩, hd⟩
+    have hmem : it ∈ items := (List.mem_filter.mp hit).1
+    simp only [FItem.leaf, h.types it hmem, List.mem_singleton] at hd
+    exact ⟨it, hit, hd⟩
+  · rintro ⟨it, hit, rfl⟩
+    have hmem : it ∈ items := (List.mem_filter.mp hit).1
+    exact ⟨it.leaf, ⟨it, hit, rfl⟩, by simp [FItem.leaf, h.types it hmem]⟩
+
+/-- **The pinned `check_model` is exact on flat choices**: for every choice group `{1,1}` whose
+    members are plain element particles (any number, any occurrence ranges), the port accepts the
+    model iff it satisfies Unique Particle Attribution and Element Declarations Consistent. -/
+theorem checkModel_refines_partial {M : Ctx} {sigma : List QN} {T : TypeTable} {r : Nat} {items : List FItem}
+    (h : Frag15 M sigma T r items) :
+    M.accepts (flatChoice r items) = true ↔
+      UPA sigma false (flatChoice r items) ∧ EDC T (flatChoice r items) := by
+  rw [accepts_flat h.ctx]
+  have hsub : (live items).Sublist items := List.filter_sublist
+  have hids : (live items).Pairwise (fun a b => a.id ≠ b.id) := h.ctx.ids.sublist hsub
+  constructor
+  · intro hpw
+    have hdiff : ∀ it ∈ live items, ∀ jt ∈ live items, it.name = jt.name → it = jt := by
+      intro it hit jt hjt hn
+      apply Classical.byContradiction
+      intro hne
+      exact pairwise_forall (fun a b hab => Ne.symm hab) hpw it hit jt hjt hne hn
+    refine ⟨?_, ?_⟩
+    · apply upa_of_disjoint
+      intro l1 h1 l2 h2 hne a _ ⟨hm1, hm2⟩
+      rw [liveLeaves_flatChoice] at h1 h2
+      obtain ⟨it, hit, rfl⟩ := List.mem_map.mp h1
+      obtain ⟨jt, hjt, rfl⟩ := List.mem_map.mp h2
+      simp only [FItem.leaf, Leaf.matches, List.contains_cons, List.contains_nil, Bool.or_false,
+        beq_iff_eq] at hm1 hm2
+      have := hdiff it hit jt hjt (hm1.symm.trans hm2)
+      subst this
+      exact hne rfl
+    · intro d1 h1 d2 h2 hn
+      obtain ⟨it, hit, rfl⟩ := (declsOf_flat h d1).mp h1
+      obtain ⟨jt, hjt, rfl⟩ := (declsOf_flat h d2).mp h2
+      have := hdiff it hit jt hjt hn
+      subst this
+      rfl
+  · rintro ⟨hupa, _⟩
+    refine hids.imp_of_mem ?_
+    intro it jt hit hjt hid hn
+    have hm1 : it ∈ items := hsub.subset hit
+    have hm2 : jt ∈ items := hsub.subset hjt
+    obtain ⟨hl1, hl2⟩ := conflict_flat (r := r) hit hjt (h.occ it hm1) (h.occ jt hm2) hn
+    have hrep : ∀ (k x : Nat), OverNames sigma (List.replicate k (it.name, x)) := by
+      intro k x c hc
+      rw [(List.mem_replicate.mp hc).2]
+      exact h.names it hm1
+    refine hupa [] _ _ it.name it.id jt.id (fun c hc => nomatch hc) (hrep _ _) (hrep _ _) (h.names it hm1) ?_
+      (by simpa using hl1) (by simpa using hl2)
+    simp [competing, hid]
 
 /-! ### M deviates from S (known finding C15-F0): concrete witnesses, replayed on the real code -/
 
@@ -281,7 +361,7 @@ def pTwoAny : Particle :=
 example : ((ctxOf true 3 pTwoAny []).checkModel pTwoAny).err = some (.sameGroup 1 2) := by decide
 
 /-- `(a, b)`: the hypothesis of `upa_of_disjoint` holds -/
-example : ∀ l1 ∈ pOk.leaves, ∀ l2 ∈ pOk.leaves, l1.id ≠ l2.id → ∀ a ∈ [qb], ¬ (l1.matches a = true ∧ l2.matches a = true) := by
+example : ∀ l1 ∈ pOk.liveLeaves, ∀ l2 ∈ pOk.liveLeaves, l1.id ≠ l2.id → ∀ a ∈ [qb], ¬ (l1.matches a = true ∧ l2.matches a = true) := by
   decide
 
 /-- the hypotheses of `checkModel_accepts_edc_direct` are met by a model with two same-named elements -/
